@@ -93,6 +93,12 @@ CHECKS['C05'] = ('exploration',
     'Selectors only (numpy does the broadcasting): exploration. Known finding C05-vector-transposed excluded by predicate. ' + TB,
     'DESIGN.md §3 C05')
 
+CHECKS['C13'] = ('model_checking',
+    'concolic symbolic execution of RANDBETWEEN\'s kernel with the random source as a symbolic double (z3+cvc5 QF_BVFP); CrossHair/z3 on the impure wrapper; selector exploration of workbooks under a harness clock',
+    'Bounded symbolic checking: for every pair of integer bounds below 2^20 (quick) / 2^30 and EVERY double u in [0,1) returned by the random source, RANDBETWEEN returns an integer within its bounds (#NUM! when top < bottom); the impure wrapper yields no value while compiling and otherwise calls through (symbolic flag and arguments). By selectors: 16 formulas with NOW / TODAY / RAND / RANDBETWEEN nested at several depths x 7 ways of obtaining the executable model (loaded, compiled to a function, deep-copied, re-imported from JSON, single compiled formula, overridden volatile cell, recalculation with an unrelated override): every call evaluates afresh under an advancing harness clock and all cells referring to the volatile cell see one value.',
+    'Clock and random source are harness stubs with their documented contracts; workbook level is selector exploration. ' + TB,
+    'DESIGN.md §3 C13')
+
 NA = {
     'C15': 'the dependency closure is computed over openpyxl worksheets read from .xlsx files while mutating the schedula dispatcher; neither can be given a symbolic state (DESIGN §4)',
     'C16': 'placement is done by openpyxl range iteration zipped with np.ravel and compared by re-reading files: I/O and third-party C code, no encodable kernel (DESIGN §4)',
